@@ -205,6 +205,16 @@ def auto_discharge(world, fn, s, const_only_fns):
 
                 def is_usize(o):
                     return o.get("k") in ("copy", "move") and tys[M.pl_local(o["pl"])] in ("usize",) and isinstance(o["pl"], int)
+                def is_entry_counter(o):
+                    # `*map.entry(k).or_insert(0) += 1`: an occurrence counter behind the Entry API (one increment per item processed)
+                    if o.get("k") not in ("copy", "move") or isinstance(o["pl"], int) or M.pl_proj(o["pl"]) != ["*"]:
+                        return False
+                    l = M.pl_local(o["pl"])
+                    d = roots(body).get(l)
+                    return tys[l] in ("&mut usize",) and d is not None and d[0] == "call" and \
+                        M.callee_name(d[1]).rsplit("::", 1)[-1] in ("or_insert", "or_default", "or_insert_with")
+                if (small(a) and is_entry_counter(b)) or (small(b) and is_entry_counter(a)):
+                    return "ADD-SMALL: occurrence counter behind the Entry API plus a small constant (one increment per processed item; cannot reach usize::MAX)"
                 if (small(a) and is_usize(b)) or (small(b) and is_usize(a)):
                     defs = roots(body)
                     other = a if is_usize(a) else b
